@@ -42,6 +42,10 @@ type TimerMsg struct {
 // NewTimersSpec creates a new spec that can process a TimerMsg.
 func (c *Crew) NewTimersSpec() *core.Spec {
 
+	// onlyTimers drops the bindings of the request that was just
+	// handled (also of one that failed: bindings left behind would
+	// make the request patterns below match only a request with
+	// the same values from then on).
 	onlyTimers := func(bs match.Bindings) match.Bindings {
 		acc := match.NewBindings()
 		acc["timers"] = bs["timers"]
@@ -74,35 +78,35 @@ func (c *Crew) NewTimersSpec() *core.Spec {
 					F: func(ctx context.Context, bs match.Bindings, props core.StepProps) (*core.Execution, error) {
 						x, have := bs["?in"]
 						if !have {
-							return core.NewExecution(bs.Extend("error", "no in")), nil
+							return core.NewExecution(onlyTimers(bs).Extend("error", "no in")), nil
 						}
 						in, is := x.(string)
 						if !is {
-							return core.NewExecution(bs.Extend("error", fmt.Sprintf("non-string in: %T %#v", x, x))), nil
+							return core.NewExecution(onlyTimers(bs).Extend("error", fmt.Sprintf("non-string in: %T %#v", x, x))), nil
 						}
 
 						d, err := time.ParseDuration(in)
 						if err != nil {
 							msg := fmt.Sprintf("bad in '%s': %v", in, err)
-							return core.NewExecution(bs.Extend("error", msg)), nil
+							return core.NewExecution(onlyTimers(bs).Extend("error", msg)), nil
 						}
 
 						x, have = bs["?id"]
 						if !have {
-							return core.NewExecution(bs.Extend("error", "no id")), nil
+							return core.NewExecution(onlyTimers(bs).Extend("error", "no id")), nil
 						}
 						id, is := x.(string)
 						if !is {
-							return core.NewExecution(bs.Extend("error", fmt.Sprintf("non-string id: %T %#v", x, x))), nil
+							return core.NewExecution(onlyTimers(bs).Extend("error", fmt.Sprintf("non-string id: %T %#v", x, x))), nil
 						}
 
 						msg, have := bs["?msg"]
 						if !have {
-							return core.NewExecution(bs.Extend("error", "no message")), nil
+							return core.NewExecution(onlyTimers(bs).Extend("error", "no message")), nil
 						}
 
 						if err = c.timers.Add(ctx, id, msg, d); err != nil {
-							return core.NewExecution(bs.Extend("error", err.Error())), nil
+							return core.NewExecution(onlyTimers(bs).Extend("error", err.Error())), nil
 						}
 
 						c.timers.changed()
@@ -125,15 +129,15 @@ func (c *Crew) NewTimersSpec() *core.Spec {
 					F: func(ctx context.Context, bs match.Bindings, props core.StepProps) (*core.Execution, error) {
 						x, have := bs["?id"]
 						if !have {
-							return core.NewExecution(bs.Extend("error", "no id")), nil
+							return core.NewExecution(onlyTimers(bs).Extend("error", "no id")), nil
 						}
 						id, is := x.(string)
 						if !is {
-							return core.NewExecution(bs.Extend("error", fmt.Sprintf("non-string id: %T %#v", x, x))), nil
+							return core.NewExecution(onlyTimers(bs).Extend("error", fmt.Sprintf("non-string id: %T %#v", x, x))), nil
 						}
 
 						if err := c.timers.Cancel(ctx, id); err != nil {
-							return core.NewExecution(bs.Extend("error", err.Error())), nil
+							return core.NewExecution(onlyTimers(bs).Extend("error", err.Error())), nil
 						}
 
 						c.timers.changed()
